@@ -130,6 +130,7 @@ unsafe fn track(fd: c_int) {
     }
 }
 /// A blocking wait that can never end in the examined (single-threaded) schedule.
+static mut EOF_RECVS: u8 = 0;
 unsafe fn blocks_forever() -> ! {
     if S.block_is_violation {
         println!("REPLAY-BLOCKS-FOREVER");
@@ -336,6 +337,17 @@ pub unsafe extern "C" fn recv(fd: c_int, buf: *mut c_void, len: size_t, flags: c
     }
     // MSG_TRUNC makes the kernel report the real packet length, so truncation is observable
     let r = libc::syscall(libc::SYS_recvfrom, fd, buf, len, flags | libc::MSG_TRUNC, 0usize, 0usize) as ssize_t;
+    if S.on {
+        // end-of-stream answered by reading again and again = waiting for what can never arrive (as in the model)
+        if r == 0 {
+            EOF_RECVS += 1;
+            if EOF_RECVS >= 3 {
+                blocks_forever();
+            }
+        } else {
+            EOF_RECVS = 0;
+        }
+    }
     if r > len as ssize_t {
         if S.on {
             S.trunc_data = true;
